@@ -3,6 +3,7 @@
 //! lexer of units/strip/spec.rs.
 use parser::verif_hooks::preprocess;
 mod ssa_check;
+mod paths_check;
 use std::panic::{catch_unwind, AssertUnwindSafe};
 
 #[derive(Clone, Copy, PartialEq)]
@@ -140,7 +141,7 @@ fn render(l: &[S], d: usize, out: &mut String) {
     }
 }
 
-fn numbers_in(text: &str) -> Vec<usize> {
+pub(crate) fn numbers_in(text: &str) -> Vec<usize> {
     let mut v = vec![]; let mut cur = String::new();
     for c in text.chars() { if c.is_ascii_digit() { cur.push(c); } else { if !cur.is_empty() { v.push(cur.parse().unwrap_or(0)); cur.clear(); } } }
     if !cur.is_empty() { v.push(cur.parse().unwrap_or(0)); }
@@ -411,6 +412,7 @@ fn main() {
                     und.iter().map(|s| jstr(s)).collect::<Vec<_>>().join(","), twice.iter().map(|s| jstr(s)).collect::<Vec<_>>().join(",")),
             }
         }
+        Some("bounded-paths") => { paths_check::paths_bounded(args.get(2).map(|s| s.as_str()).unwrap_or("quick")); }
         Some("bounded-ssa") => { ssa_check::ssa_bounded(args.get(2).map(|s| s.as_str()).unwrap_or("quick")); }
         Some("bounded-timebox") => { timebox_bounded(args.get(2).map(|s| s.as_str()).unwrap_or("quick")); }
         Some("bounded") => {
